@@ -21,7 +21,7 @@ package mapping
 //@   requires b != nil
 //@   ensures unknown: !(flag == enc.FlagIndexMappingBaseLogarithmic || flag == enc.FlagIndexMappingBaseLinear || flag == enc.FlagIndexMappingBaseCubic) ==> result1 != nil
 //@   ensures eof: old(len(*b)) < 16 ==> result1 != nil
-//@   ensures ok: result1 == nil ==> result != nil && MapOK(result) && len(*b) == old(len(*b)) - 16
+//@   ensures ok: result1 == nil ==> result != nil && (MRange(result) ==> MapOK(result)) && len(*b) == old(len(*b)) - 16
 //@   ensures err: result1 != nil ==> result == nil
 //@   ensures SuffixM(b)
 //@   modifies *b
